@@ -26,7 +26,7 @@ HERE = os.path.dirname(os.path.dirname(os.path.abspath(__file__)))
 
 
 class Mut:
-    def __init__(self, id, file, scope, old, new, expect=None, benign=False, note='', nth=0, mode='stmt'):
+    def __init__(self, id, file, scope, old, new, expect=None, benign=False, note='', nth=0, mode='stmt', more=None):
         """file: path relative to repo; scope: 'Class.method' / 'function' / '' (module);
         old: statement text (normalised by ast) or a substring of one (prefix match with '…');
         new: replacement source (statement(s)); '' deletes (replaced by `pass`).
@@ -42,6 +42,7 @@ class Mut:
         self.note = note
         self.nth = nth
         self.mode = mode
+        self.more = more or []  # further edits applied to the same file: dicts(scope, old, new, nth, mode)
 
 
 def _find_scope(tree, scope):
@@ -125,6 +126,11 @@ def _run_one(args):
         with open(path) as fh:
             src = fh.read()
         new = apply_mut(src, mut)
+        for extra in mut.more:
+            if new is None:
+                break
+            new = apply_mut(new, Mut(mut.id, mut.file, extra.get('scope', mut.scope), extra['old'], extra['new'],
+                                     nth=extra.get('nth', 0), mode=extra.get('mode', 'stmt')))
         if new is None or new == src:
             return {'id': mut.id, 'status': 'skip', 'why': 'edit site not found in current tree'}
         with open(path, 'w') as fh:
